@@ -270,6 +270,7 @@ IntVerdict(e) ==
   CASE e.op = "FromInt64" -> LET r == Decode(e.r) IN
           B2S(r.k = "fin" /\ CmpMag(r.c, r.q, e.v.l, 0) = 0 /\ r.neg = (e.v.neg /\ e.v.l # << >>))
     [] e.op = "FromInt" -> IF e.v.l = << >> THEN B2S(ResEq(Decode(e.r), ZeroV(FALSE)))
+                           ELSE IF NumDigits(e.v.l) > Emax + 37 THEN B2S(ResEq(Decode(e.r), InfV(e.v.neg)))   \* at least 10^(Emax+37) > 10 * MaxFinite: Inf in every mode (and no long division of a 100 000-digit integer)
                            ELSE Agrees(Rnd(e.v.neg, e.v.l, One, 0), Decode(e.r), mode)
     [] e.op = "Int" -> IF x.k # "fin" THEN B2S(Panicked(e))
                        ELSE LET t == TruncMag(x) IN B2S(~Panicked(e) /\ e.z.l = t /\ (t # << >> => e.z.neg = x.neg))
